@@ -10,7 +10,7 @@ def main():
     if missing:
         print('missing tools:', missing)
         return 1
-    for cfg in core.CONFIGS:
+    for cfg in ('abacus', 'stdsqrt'):
         core.get_ast(cfg)
     print('vfx selftest ok')
     return 0
